@@ -244,7 +244,14 @@ var tailNames = []string{"absent", "zeros-to-4k", "ff-fill", "a5-fill", "countin
 	// stale blocks: several well-framed state records (magic1 ... magic2) whose
 	// checksum does not match; repair's scanner sees each as a state that its
 	// exponential-then-binary search has to classify as bad
-	"2x-stale-state-record", "4x-stale-state-record"}
+	"2x-stale-state-record", "4x-stale-state-record",
+	// the write of a few bytes at the cut never reached the disk but what was
+	// written behind them did: the rest of the original file (up to its last state
+	// record, without the shutdown marker) follows 8 inverted / 64 zeroed bytes
+	"8-inverted-then-rest-of-file", "64-zeroed-then-rest-of-file"}
+
+// restTail reports whether the tail kind keeps the original bytes behind the damage
+func restTail(kind int) bool { return kind == 11 || kind == 12 }
 
 func makeTail(kind int, base []byte, L int64, wl *workload) []byte {
 	switch kind {
@@ -292,6 +299,24 @@ func makeTail(kind int, base []byte, L int64, wl *workload) []byte {
 			r[10] ^= byte(0x40 >> i) // time stamp: checksum no longer matches
 			t = append(t, r...)
 			t = append(t, byte(0x61+i), byte(0x62+i), byte(0x63+i))
+		}
+		return t
+	case 11, 12:
+		end := wl.Ends[len(wl.Ends)-1]
+		n := int64(8)
+		if kind == 12 {
+			n = 64
+		}
+		var t []byte
+		for i := L; i < L+n && i < end; i++ {
+			if kind == 11 {
+				t = append(t, ^base[i])
+			} else {
+				t = append(t, 0)
+			}
+		}
+		if L+n < end {
+			t = append(t, base[L+n:end]...)
 		}
 		return t
 	}
@@ -444,8 +469,28 @@ func runCase(dir string, wl *workload, base []byte, id caseID) verdict {
 			v := fail("", "%s: OpenDb: %s", what, o)
 			return "", &v
 		}
-		if want < 0 {
+		if want < 0 && !restTail(id.Tail) {
 			v := fail("", "%s: the file opens although no complete state lies within the first %d bytes", what, id.L)
+			return "", &v
+		}
+		if restTail(id.Tail) {
+			// the states behind the cut are still in the file: one of them may be
+			// completely intact (the damaged bytes were slack, or belong to data that
+			// the state no longer refers to), so any state from the expected one on is
+			// a right answer - provided it reads exactly as that state and (below)
+			// passes the full check
+			for j := max(want, 0); j < len(wl.Models); j++ {
+				if len(drive.CompareObs(obs, wl.Models[j], drive.CompareOpts{})) == 0 {
+					if o := call(func() error { defer timed("fullcheck")(); return db19.CheckDatabase(file, true) }); !o.ok() {
+						v := fail("", "%s: shows state %d but CheckDatabase(full): %s", what, j, o)
+						return "", &v
+					}
+					return fmt.Sprintf("state%d+%d", want, j-want), nil
+				}
+			}
+		}
+		if want < 0 {
+			v := fail("", "%s: the file opens but shows none of the persisted states", what)
 			return "", &v
 		}
 		if d := drive.CompareObs(obs, wl.Models[want], drive.CompareOpts{}); len(d) > 0 {
@@ -548,6 +593,14 @@ func runCase(dir string, wl *workload, base []byte, id caseID) verdict {
 	}
 	if want < 0 {
 		// no complete state: a clear refusal is the right answer
+		if rp.ok() && restTail(id.Tail) {
+			// a later state may be completely intact behind the damage
+			s, v := observe(fileR, "after Repair ("+repMsg+")")
+			if v != nil {
+				return *v
+			}
+			return verdict{Outcome: summary + ":repaired:" + s}
+		}
 		if rp.ok() {
 			return fail("", "Repair reports success (%s) although no complete state lies within the first %d bytes", repMsg, id.L)
 		}
@@ -730,7 +783,7 @@ func (r *runner) runBatch(wl *workload, cases []caseID) {
 		}
 		id := cases[started]
 		r.account(id, verdict{Msg: fmt.Sprintf("the process died during the recovery sequence (%v): %s", werr,
-			firstLines(stderr.String(), 6))})
+			firstLines(stderr.String(), 40))})
 		cases = cases[started+1:]
 		// leftovers of the dead executor
 		if fs, _ := filepath.Glob(filepath.Join(r.dir, "c*.db*")); len(fs) > 0 {
@@ -829,7 +882,10 @@ func run(c *lib.Ctx) {
 				// quick tier: the full tail alphabet only near the boundaries (file
 				// start, state record ends, clean-close ends, 4 KiB page ends, file
 				// end); elsewhere absent / 0xFF fill / state magic alone
-				if c.Quick() && !nearBoundary(wl, L) && t != 0 && t != 2 && t != 5 {
+				if restTail(t) && L >= wl.Ends[len(wl.Ends)-1] {
+					continue // nothing behind the cut
+				}
+				if c.Quick() && !nearBoundary(wl, L) && t != 0 && t != 2 && t != 5 && t != 11 {
 					continue
 				}
 				cases = append(cases, caseID{Workload: wl.Name, L: L, Tail: t, TailName: tailNames[t]})
